@@ -721,3 +721,46 @@ def r20_4_handlers_and_closed_streams(ctx: Ctx) -> RuleResult:
                 else:
                     rr.ok({"fn": f.qual, "handler": unparse(h.type)})
     return rr
+
+
+@rule("C20")
+def r20_5_required_sections(ctx: Ctx) -> RuleResult:
+    """The stream data object is built from a builder whose sections are all Optional (a file may lack them).  A section whose
+    accessor promises a non-Optional type must be checked with `_check_not_null` (-> InvalidPyodaDataError "Missing field")
+    when it is copied out of the builder; copying it unchecked turns a truncated file into an AttributeError / TypeError on
+    None somewhere in the source's constructor, outside the documented error."""
+    rr = RuleResult("R20.5", "every section of the zone-data file whose accessor is non-Optional is checked for presence when copied from the builder", min_instances=5)
+    M = ctx.M
+    c = M.cls("_TzdbStreamData")
+    b = next((k for k in M.all_classes() if k.name == "_Builder" and k.mod is c.mod), None)
+    init = M.find_method(c, "__init__")
+    if b is None or init is None:
+        raise AnalysisError("_TzdbStreamData._Builder / __init__ missing")
+    optional: dict[str, bool] = {}
+    for f in b.all_defs:
+        if isinstance(f.node, ast.Lambda) or f.name != "__init__":
+            continue
+        for n in own_nodes(f.node):
+            if isinstance(n, ast.AnnAssign) and isinstance(n.target, ast.Attribute):
+                optional[n.target.attr] = "None" in unparse(n.annotation)
+    bp = init.value_params[0].arg
+    for n in own_nodes(init.node):
+        tg = n.targets if isinstance(n, ast.Assign) else [n.target] if isinstance(n, ast.AnnAssign) and n.value is not None else []
+        for t in tg:
+            if not (isinstance(t, ast.Attribute) and isinstance(t.value, ast.Name) and t.value.id == init.self_name):
+                continue
+            v = n.value
+            src = next((a for a in ast.walk(v) if isinstance(a, ast.Attribute) and isinstance(a.value, ast.Name) and a.value.id == bp), None)
+            if src is None or not optional.get(src.attr, False):
+                continue
+            rr.inst()
+            checked = isinstance(v, ast.Call) and unparse(v.func).endswith("_check_not_null")
+            # accessor of the stored field
+            field = mangle(c.name, t.attr)
+            acc = next((g for g in c.all_defs if g.kind == "property" and not isinstance(g.node, ast.Lambda) and any(isinstance(r, ast.Return) and isinstance(r.value, ast.Attribute) and mangle(c.name, r.value.attr) == field for r in own_nodes(g.node))), None)
+            promised_optional = acc is None or acc.node.returns is None or "None" in unparse(acc.node.returns)
+            if checked or promised_optional:
+                rr.ok({"field": t.attr, "checked": checked, "accessor optional": promised_optional})
+            else:
+                rr.fail(init.qual, f"`{unparse(t)} = {unparse(v)[:50]}` copies an optional section unchecked although `{acc.name}` promises `{unparse(acc.node.returns)}`: a file without that section yields None here and an AttributeError later instead of the invalid-data error", ctx.loc(init, n))
+    return rr
